@@ -6,6 +6,7 @@ VARIABLE done
 Groups == << [name |-> "formula", items |-> FormulaCmds],
              [name |-> "transformations", items |-> Transformations],
              [name |-> "output_options", items |-> OutputOptions],
+             [name |-> "formats", items |-> FormatCases],
              [name |-> "graphs", items |-> {[name |-> g, gtype |-> GraphSpec[g].gtype, spec |-> GraphSpec[g].spec] : g \in DOMAIN GraphSpec}] >>
 Init == done = 0
 Next == /\ done < Len(Groups)
